@@ -1428,4 +1428,205 @@ theorem chanClose_W {cfg : Cfg} (hcc : cfg.closeChecksSched = true) {w : World} 
         · subst e; rw [hentc] at hp; simp at hp
         · rw [hento c' e] at hp; exact hq.2.2 ⟨c', p, hp, h1, h2⟩
 
+/-! ### every action preserves the invariant -/
+
+theorem schedule_W_other {w : World} {f g : Nat} (val : Val) (sig : Sig) (hm : WM w) (hcur : w.current = some f)
+    (hq : WQuiet w f) (hne : g ≠ f) :
+    WInv (scheduleGeneral w g val sig false) := by
+  obtain ⟨ht, hc, hk, _⟩ := scheduleGeneral_props w g val sig
+  obtain ⟨hL, hff⟩ := schedule_other w g val sig f hne
+  have hent := ent_of_chans hc
+  refine ⟨?_, ?_⟩
+  · unfold WM; rw [ht, hent]; exact M_schedule g val sig hm
+  · intro f' hf'
+    rw [hk, hcur] at hf'; injection hf' with hf'; subst hf'
+    refine ⟨by rw [hL]; exact hq.1, ?_, ?_⟩
+    · rw [ht, liveTimer_congr _ _ (by rw [hff])]; exact hq.2.1
+    · rw [hent, liveEntry_congr _ _ (by rw [hff])]; exact hq.2.2
+
+theorem mem_insertTimer (t : Timer) : ∀ (l : List Timer) (u : Timer), u ∈ insertTimer t l ↔ u = t ∨ u ∈ l := by
+  intro l
+  induction l with
+  | nil => intro u; simp [insertTimer]
+  | cons x rest ih =>
+    intro u
+    unfold insertTimer
+    split
+    · simp
+    · simp only [List.mem_cons, ih]
+      constructor
+      · rintro (h | h | h)
+        · exact Or.inr (Or.inl h)
+        · exact Or.inl h
+        · exact Or.inr (Or.inr h)
+      · rintro (h | h | h)
+        · exact Or.inr (Or.inl h)
+        · exact Or.inl h
+        · exact Or.inr (Or.inr h)
+
+theorem LT_schedule_self {w : World} {tm : List Timer} {en : Ent} (g : Nat) (val : Val) (sig : Sig)
+    (hm : M w.fibers w.runq tm en w.current) (hcan : (w.fibers g).canceled = false) :
+    LT (scheduleGeneral w g val sig false).fibers (scheduleGeneral w g val sig false).runq g = 1 := by
+  obtain ⟨_, _, _, pc⟩ := scheduleGeneral_props w g val sig
+  rcases pc with ⟨hc, _⟩ | ⟨_, hs, _, _, hr⟩
+  · rw [hcan] at hc; cases hc
+  · rw [hr]
+    simp only [LT, List.countP_append, hs]
+    have : w.runq.countP (fun t => t.fiber == g && t.expected == (w.fibers g).sched + 1) = 0 := by
+      rw [List.countP_eq_zero]
+      intro u hu
+      have := hm.a2 u hu
+      simp only [Bool.and_eq_true, beq_iff_eq, not_and]
+      intro hf; rw [hf] at this; omega
+    rw [this]; simp
+
+theorem WInv_congr (w w' : World) (hf : w'.fibers = w.fibers) (hr : w'.runq = w.runq) (ht : w'.timers = w.timers)
+    (hc : w'.chans = w.chans) (hk : w'.current = w.current) (hi : WInv w) : WInv w' := by
+  unfold WInv WM WQuiet at hi ⊢
+  rw [hf, hr, ht, ent_of_chans hc, hk]
+  exact hi
+
+theorem step_W {cfg : Cfg} (hg : CfgGood cfg) (w : World) (a : Action) (hns : a.noSelfMatch) (hi : WInv w) :
+    WInv (step cfg w a).1 := by
+  obtain ⟨hm, hqq⟩ := hi
+  unfold step
+  cases hcur : w.current with
+  | none =>
+    cases a with
+    | runTask => exact loopRunTask_W ⟨hm, hqq⟩ hcur
+    | timers => exact loopTimers_W ⟨hm, hqq⟩ hcur
+    | poll => exact loopPollDrop_W ⟨hm, hqq⟩ hcur
+    | scopeEnd s => exact WInv_congr w _ rfl rfl rfl rfl hcur.symm ⟨hm, hqq⟩
+    | _ => exact ⟨hm, hqq⟩
+  | some f =>
+    have hq : WQuiet w f := hqq f hcur
+    have hnc : ∀ c, ¬ liveIn w.fibers w.ent f c := fun c hh => hq.2.2 ⟨c, hh⟩
+    have hfa : (w.fibers f).status = .alive := hm.d5 f hcur
+    have hcanf : (w.fibers f).canceled = false := by
+      cases hc : (w.fibers f).canceled
+      · rfl
+      · have := hm.e f hc; rw [hq.1] at this; cases this
+    cases a with
+    | runTask => exact ⟨hm, hqq⟩
+    | timers => exact ⟨hm, hqq⟩
+    | poll => exact ⟨hm, hqq⟩
+    | scopeEnd s => exact WInv_congr w _ rfl rfl rfl rfl hcur.symm ⟨hm, hqq⟩
+    | go g =>
+      simp only []
+      split
+      · rename_i hcond
+        have hne : g ≠ f := fun e => by rw [e, hfa] at hcond; cases hcond.1
+        exact schedule_W_other .nil .ok hm hcur hq hne
+      · exact ⟨hm, hqq⟩
+    | cancel g =>
+      simp only []
+      split
+      · exact ⟨hm, hqq⟩
+      · rename_i hne
+        exact schedule_W_other .errCancel .error hm hcur hq hne
+    | deadline s ms =>
+      simp only []
+      refine ⟨?_, ?_⟩
+      · unfold WM at hm ⊢; rw [hcur] at hm
+        exact M_timer_add f ⟨f, (w.fibers f).sched, w.clock + w.clockStep + ms, false, some s⟩ hm rfl rfl rfl hq.1
+          (mem_insertTimer _ _)
+      · intro f' hf'
+        have : f' = f := by simpa [hcur] using hf'.symm
+        subst this
+        refine ⟨hq.1, ?_, hq.2.2⟩
+        rintro ⟨u, hu, h1, h2, h3⟩
+        rcases (mem_insertTimer _ _ u).mp hu with e | e
+        · subst e; cases h1
+        · exact hq.2.1 ⟨u, e, h1, h2, h3⟩
+    | sleep ms =>
+      simp only []
+      apply awaitFiber_W
+      · unfold WM at hm ⊢; rw [hcur] at hm
+        exact M_timer_add f ⟨f, (w.fibers f).sched, w.clock + w.clockStep + ms, false, none⟩ hm rfl rfl rfl hq.1
+          (mem_insertTimer _ _)
+      · rfl
+      · right; left
+        exact ⟨_, (mem_insertTimer _ _ _).mpr (Or.inl rfl), rfl, rfl, rfl⟩
+    | finish e => exact finishFiber_W hm hcur hq
+    | close c =>
+      obtain ⟨h1, h2, h3⟩ := chanClose_W hg.closeChecks (c := c) hm hcur hq
+      exact ⟨h1, fun f' hf' => by rw [h2] at hf'; injection hf' with hf'; subst hf'; exact h3⟩
+    | give c x =>
+      simp only []
+      cases hp : chanPush cfg w f c x 0 with
+      | closedErr => exact finishFiber_W hm hcur hq
+      | ok w1 b =>
+        obtain ⟨h1, h2, h3, h4, h5, h6, _⟩ := chanPush_W hg.strict hp hm hcur hq.1 hq.2.1 (hnc c) (by decide)
+        cases b with
+        | true => exact awaitFiber_W h1 h2 (Or.inr (Or.inr ⟨c, h6.mpr rfl⟩))
+        | false =>
+          refine ⟨h1, fun f' hf' => ?_⟩
+          rw [h2] at hf'; injection hf' with hf'; subst hf'
+          refine ⟨h3, h4, ?_⟩
+          rintro ⟨c', hl⟩
+          by_cases e : c' = c
+          · subst e; have := h6.mp hl; cases this
+          · exact hnc c' ((h5 c' e).mp hl)
+    | take c =>
+      simp only []
+      have hpw := chanPop_W hg.skips (mode := 0) hm hcur hq.1 hq.2.1 (hnc c) (by decide)
+      cases hp : chanPop cfg w f c 0 with
+      | blocked w1 =>
+        obtain ⟨h1, h2, _, _, _, h6, _⟩ := hpw.2 w1 hp
+        exact awaitFiber_W h1 h2 (Or.inr (Or.inr ⟨c, h6⟩))
+      | got w1 r =>
+        obtain ⟨h1, h2, h3, _, _, h6⟩ := hpw.1 w1 r hp
+        have hcan1 : (w1.fibers f).canceled = false := by rw [h6]; exact hcanf
+        have key : ∀ v, WInv (awaitFiber (schedule w1 f v) f) := by
+          intro v
+          obtain ⟨ht, hc, hk, _⟩ := scheduleGeneral_props w1 f v .ok
+          apply awaitFiber_W
+          · unfold WM schedule; rw [ht, ent_of_chans hc]; exact M_schedule f v .ok h1
+          · unfold schedule; rw [hk]; exact h2
+          · left; exact LT_schedule_self f v .ok h1 hcan1
+        cases r with
+        | none => exact key .nil
+        | some x => exact key (.num x)
+    | select cls =>
+      cases cls with
+      | nil => exact ⟨hm, hqq⟩
+      | cons cl0 cls0 =>
+        simp only []
+        have hnd : ((cl0 :: cls0).map Clause.chan).Nodup := hns
+        generalize hcls : cl0 :: cls0 = cls at hnd
+        cases hci : choiceImmediate cfg w f cls with
+        | some r =>
+          obtain ⟨h1, h2, h3⟩ := choiceImmediate_W hg f cls w r.1 r.2 hci hm hcur hq
+          exact ⟨h1, fun f' hf' => by rw [h2] at hf'; injection hf' with hf'; subst hf'; exact h3⟩
+        | none =>
+          have hcond := choiceImmediate_none hg w f cls hci
+          obtain ⟨h1, h2, _, _, h5, _⟩ := choiceRegister_W hg f cls w hm hcur hq.1 hq.2.1
+            (fun cl hcl => ⟨hcond cl hcl, hnc cl.chan⟩) hnd
+          apply awaitFiber_W h1 h2
+          right; right
+          exact ⟨cl0.chan, h5 cl0 (by rw [← hcls]; simp)⟩
+
+/-- **the wake-up invariant holds after every action sequence** (source with all five checks; no select names a
+    channel twice) -/
+theorem run_W {cfg : Cfg} (hg : CfgGood cfg) (as : List Action) :
+    ∀ w : World, (∀ a ∈ as, a.noSelfMatch) → WInv w → WInv (run cfg w as) := by
+  induction as with
+  | nil => intro w _ h; exact h
+  | cons a rest ih =>
+    intro w hns h
+    unfold run
+    simp only [List.foldl_cons]
+    exact ih _ (fun b hb => hns b (List.mem_cons_of_mem _ hb)) (step_W hg w a (hns a (by simp)) h)
+
+theorem start_W (limits : Nat → Nat) : WInv (World.start limits) := by
+  unfold World.start schedule
+  have h0 : WM (World.init limits) := by
+    unfold WM World.init World.ent
+    refine ⟨by simp, by simp, by simp, by simp [LT], by simp, ?_, by simp [LT], by simp, by simp, by simp⟩
+    intro f _ _
+    exact ⟨by simp [liveTimer], by simp [liveEntry, liveIn]⟩
+  obtain ⟨ht, hc, hk, _⟩ := scheduleGeneral_props (World.init limits) 0 .nil .ok
+  refine ⟨?_, fun f hf => by rw [hk] at hf; simp [World.init] at hf⟩
+  unfold WM; rw [ht, ent_of_chans hc]; exact M_schedule 0 .nil .ok h0
+
 end JanetModel.Ev
